@@ -34,15 +34,26 @@ def tv_of_python(v):
 def raw_bytes(enc, rawv):
     """packet bytes holding exactly the field (whole bytes)"""
     if enc["k"] == "int":
-        n = rawv["n"]
+        n = rawv["n"] + rawv.get("shift", 0)
         w = enc["w"]
         return (n % (1 << w)).to_bytes(w // 8, "big")
     x = rawv["num"] / rawv["den"]
     return struct.pack({16: ">e", 32: ">f", 64: ">d"}[enc["w"]], x)
 
 
-def observe(pt, env, rawv, via="ctor", od=False, shared=None):
-    """shared: dict keeping ONE type object per (type, route), so that it decodes all cases of that type in sequence."""
+def shifted_enum(pt, rawv, B):
+    """Real-side copy of an uncalibrated integer enumeration case with every listed raw value and the packet's raw value moved up
+    by B (the specification keeps the small values: listing and lookup are translation invariant)."""
+    import copy
+    rp = copy.deepcopy(pt)
+    for e in rp["enum"]:
+        e["raw"] = dict(e["raw"], shift=B)
+    return rp, dict(rawv, shift=B)
+
+
+def observe(pt, env, rawv, via="ctor", od=False, shared=None, unshift=0):
+    """shared: dict keeping ONE type object per (type, route), so that it decodes all cases of that type in sequence.
+    unshift: subtracted from the observed raw value (cases built by shifted_enum)."""
     from space_packet_parser import common, exceptions
     if shared is not None:
         key = (json.dumps(pt, sort_keys=True), via, od)
@@ -71,4 +82,4 @@ def observe(pt, env, rawv, via="ctor", od=False, shared=None):
     cls = {common.IntParameter: "Int", common.FloatParameter: "Float", common.StrParameter: "Str",
            common.BoolParameter: "Bool", common.BinaryParameter: "Binary"}.get(type(v), type(v).__name__)
     tv = crit.tv_bool(bool(v)) if cls == "Bool" else tv_of_python(v)
-    return {"k": "val", "v": tv, "raw": tv_of_python(v.raw_value), "cls": cls}
+    return {"k": "val", "v": tv, "raw": tv_of_python(v.raw_value - unshift if unshift else v.raw_value), "cls": cls}
